@@ -5,16 +5,25 @@ import json
 import sys
 
 ROUND = sys.argv[1] if len(sys.argv) > 1 else "2"
+ROUNDNOTE = ""
+if int(ROUND) >= 4:
+    ROUNDNOTE = ("In this round the obvious single-site slips are used up. Strongly prefer changes whose failure needs one of: "
+                 "(i) a FAULT injected at a particular point - an I/O error or short read from the reader, a KeyboardInterrupt / MemoryError "
+                 "raised in the middle of a parse, an exception thrown by a caller-supplied object (reader, logging handler, selection sequence); "
+                 "(ii) TWO THREADS in one particular interleaving; (iii) a HISTORY of three or more steps in one process where an earlier step "
+                 "leaves something behind; or (iv) TWO COOPERATING EDITS at different sites (possibly different files) that each look correct "
+                 "alone and only break the property together. Where the property is about inputs only, prefer an unusual-but-legal input that "
+                 "needs two features at once.")
 TAKEN = {
- "C06": ["a per-call cache of parsed tracks keyed by the section body (identical bodies get the first section's labels)", "replacing read().splitlines() by line iteration with rstrip('\\n') (CRLF via untranslated readers)", "reading the file in fixed 65536-character chunks and gluing lines at chunk boundaries", "an un-anchored header regex so that '<valid header><suffix>' unknown sections are routed"],
- "C11": ["a fast path in the proximal-event search that runs before the hint is validated", "a single-entry 'last lookup' memo on the tempo map that is not exception-safe", "a galloping (exponential) search that drops the last tempo event for some hint distances", "a lazily built bisect index on the tempo map that is published before it is complete (two threads)"],
- "C13": ["a selection filter that became instruments x difficulties (cross product)", "stripping whitespace before comparing '{' / '}' / '[Header]' in the section partitioner", "tracks shared (same object / memo) between two sections with identical bodies", "a selection memo kept in class attributes that races between two threads with different selections"],
- "C14": ["a process-wide memo from line text to parse result, keyed by the text only", "a 'starts with a digit' fast path that raises IndexError on blank lines", "stale regex-match state carried from a parsable line to the following unparsable line after a flattened for/else", "treating whitespace-padded '{' / '}' lines inside a body as structural"],
- "C15": ["an exact-tick shortcut in timestamp_at_tick that skips the zero-tempo check", "collapsing tempo lines that repeat the current BPM before the ordering check", "a tempo regex that silently drops lines whose value is zero", "an implicit 4/4 time signature supplied when the tick-0 signature is missing"],
- "C17": ["a mutable default argument dict in Metadata.from_chart_lines shared by all parses", "iterating the section headers through a set (hash-seed dependent order)", "a racy 'last tempo' memo at module level (switch between compare and use)", "a lazily filled section-name table that is left half-filled if the first parse of the process is aborted"],
- "C18": ["a ':05' format spec applied to a tuple-valued sustain in __str__", "bypassing the validating wrapper so that a zero tempo reaches a division", "str() of a track without notes raising IndexError", "summing lane bits instead of OR-ing them so a duplicated lane line yields an unknown note value (KeyError)"],
- "C19": ["a tick->time memo stored lazily in the Chart instance's __dict__", "an in-place sort of the track's note list inside the rate query", "a resume hint written in two steps on the shared tempo map (torn between two reader threads)", "track equality implemented through __dict__ so that reading a cached attribute on one twin breaks =="],
- "C20": ["moving a TYPE_CHECKING-only import of a name from chartparse.sync to a runtime import in globalevents", "a module-level try/except ImportError import block in track.py that binds names depending on import order", "a package-level __getattr__ that raises KeyError depending on what has been imported", "a per-class rank number taken from a global class-creation counter (differs with import order)"],
+ "C06": ["a per-call cache of parsed tracks keyed by the section body (identical bodies get the first section's labels)", "replacing read().splitlines() by line iteration with rstrip('\\n') (CRLF via untranslated readers)", "reading the file in fixed 65536-character chunks and gluing lines at chunk boundaries", "an un-anchored header regex so that '<valid header><suffix>' unknown sections are routed", "deriving the difficulty from the header with str.rstrip(instrument) (over-strips some of the 40 names)", "sniffing the file encoding from a fixed 4096-byte prefix in from_filepath"],
+ "C11": ["a fast path in the proximal-event search that runs before the hint is validated", "a single-entry 'last lookup' memo on the tempo map that is not exception-safe", "a galloping (exponential) search that drops the last tempo event for some hint distances", "a lazily built bisect index on the tempo map that is published before it is complete (two threads)", "enumerate() over a slice without start= so the returned index is slice-relative", "looking up the sustain-end timestamp for a tick computed from the raw lines instead of the stored sustain"],
+ "C13": ["a selection filter that became instruments x difficulties (cross product)", "stripping whitespace before comparing '{' / '}' / '[Header]' in the section partitioner", "tracks shared (same object / memo) between two sections with identical bodies", "a selection memo kept in class attributes that races between two threads with different selections", "iterating over the selection instead of the sections, so a pair listed twice re-reads an exhausted one-shot iterator", "a class-level header table filled lazily on first use (published half-filled to a second thread)"],
+ "C14": ["a process-wide memo from line text to parse result, keyed by the text only", "a 'starts with a digit' fast path that raises IndexError on blank lines", "stale regex-match state carried from a parsable line to the following unparsable line after a flattened for/else", "treating whitespace-padded '{' / '}' lines inside a body as structural", "passing the already formatted warning (which contains the raw line) to logging as the %-format string", "widening the N-line regex so an unsupported index raises ValueError instead of RegexNotMatchError"],
+ "C15": ["an exact-tick shortcut in timestamp_at_tick that skips the zero-tempo check", "collapsing tempo lines that repeat the current BPM before the ordering check", "a tempo regex that silently drops lines whose value is zero", "an implicit 4/4 time signature supplied when the tick-0 signature is missing", "sorting parsed data by tick inside the shared line dispatcher (re-orders tempo lines before the ordering check)", "skipping the 'tick precedes first event' guard when no hint is given (negative ticks slip through abs())"],
+ "C17": ["a mutable default argument dict in Metadata.from_chart_lines shared by all parses", "iterating the section headers through a set (hash-seed dependent order)", "a racy 'last tempo' memo at module level (switch between compare and use)", "a lazily filled section-name table that is left half-filled if the first parse of the process is aborted", "a tick-table memo keyed by id() of a list that may already be garbage", "a class-level scratch buffer that is cleared only on the success path"],
+ "C18": ["a ':05' format spec applied to a tuple-valued sustain in __str__", "bypassing the validating wrapper so that a zero tempo reaches a division", "str() of a track without notes raising IndexError", "summing lane bits instead of OR-ing them so a duplicated lane line yields an unknown note value (KeyError)", "re-formatting str(timedelta) by splitting on ':' (breaks at >= 24 h)", "an assert that an open note never shares its tick with a lane note"],
+ "C19": ["a tick->time memo stored lazily in the Chart instance's __dict__", "an in-place sort of the track's note list inside the rate query", "a resume hint written in two steps on the shared tempo map (torn between two reader threads)", "track equality implemented through __dict__ so that reading a cached attribute on one twin breaks ==", "repr=False on the track dataclasses so the mixin repr iterates __dict__ while a cached_property fills it", "dropping frozen=True from SyncTrack to sort anchors in __post_init__"],
+ "C20": ["moving a TYPE_CHECKING-only import of a name from chartparse.sync to a runtime import in globalevents", "a module-level try/except ImportError import block in track.py that binds names depending on import order", "a package-level __getattr__ that raises KeyError depending on what has been imported", "a per-class rank number taken from a global class-creation counter (differs with import order)", "'from chartparse.track import *' re-exports in three modules (copies a partially initialised module)", "__version__ boilerplate in __init__.py whose 'from importlib import metadata' shadows the metadata submodule"],
 }
 FOCUS = {
  "C06": "Prefer changes that only show under particular I/O behaviour or configurations when the file is read *by path* or through unusual-but-legal reader objects: e.g. a read() that returns less than asked, a chunk boundary that falls inside a CRLF pair / inside the BOM / inside a multi-byte UTF-8 character, a file larger than some buffer size, a particular combination of BOM + CRLF + section order, an unknown section at a particular place, or one particular header name out of the 40.",
@@ -43,6 +52,8 @@ YOUR TASK: produce TWO different source changes (call them `a` and `b`, of diffe
 
 @FOCUS@
 
+@ROUNDNOTE@
+
 Other people have ALREADY written the following changes for this property; do something of a DIFFERENT nature (different mechanism and different trigger):
 @TAKEN@
 
@@ -61,6 +72,6 @@ for pid in FOCUS:
     text = f"{pid} — {p['title']}\n\nSTATEMENT: {p['statement']}\n\nQUANTIFIER: {p['quantifier']['text']}\n"
     wt, out = f"/tmp/wt{ROUND}-{pid}", f"/tmp/seeded{ROUND}-{pid}"
     t = (TEMPLATE.replace("@WT@", wt).replace("@OUT@", out).replace("@PROPERTY@", text)
-         .replace("@FOCUS@", FOCUS[pid]).replace("@TAKEN@", "\n".join("  - " + x for x in TAKEN[pid])))
+         .replace("@FOCUS@", FOCUS[pid]).replace("@ROUNDNOTE@", ROUNDNOTE).replace("@TAKEN@", "\n".join("  - " + x for x in TAKEN[pid])))
     open(f"{out}/TASK.md", "w").write(t)
 print("ok")
